@@ -604,6 +604,9 @@ def binop(ctx: Ctx, op, a, b):
         if isinstance(op, ast.FloorDiv):
             if isinstance(b, int) and b > 0:
                 return mk_int(ea / eb)  # z3 int div floors for positive divisor
+        if isinstance(op, ast.Mod):
+            if isinstance(b, int) and not isinstance(b, bool) and b > 0:
+                return mk_int(ea % eb)  # z3 mod is in [0, b) for a positive divisor, as Python's
         raise Unsupported(f"binop {op} on symbolic ints")
     ka, kb = kind_of_strlike(a), kind_of_strlike(b)
     if isinstance(op, ast.Add):
